@@ -100,6 +100,16 @@ class FieldArrayModel(FieldCompositeModel):
         FieldCompositeModel.post_randomize(self, visited)
         self.sum_expr = None
         self.sum_expr_btor = None
+        self.product_expr = None
+        self.product_expr_btor = None
+        
+        if self.is_rand_sz and self.is_scalar:
+            # The list was extended to the largest size its constraints
+            # admit. Drop the elements beyond the size that was selected,
+            # such that the list holds exactly what it exposes
+            sz = int(self.size.get_val())
+            if sz >= 0 and sz < len(self.field_l):
+                del self.field_l[sz:]
         
     def add_field(self) -> FieldScalarModel:
         fid = len(self.field_l)
